@@ -1,10 +1,11 @@
-import AkVerif.Lemmas.LLCompose
+import AkVerif.Lemmas.LLFactAll
 /-!
 # C01 — every parse result is a valid derivation of the user's grammar
 
 Property theorems only.  The model: `LL.construct` (`Model/LLGrammar.lean`, the constructor of
-`LLParser`: factorisation incl. the smart undo, nullables/FIRST/FOLLOW, table) and `LL.Parser.parse`
-= `LL.run` (`Model/LLParse.lean`, the backtracking stack machine); the driver executes exactly these.
+`LLParser`: factorisation incl. the smart undo, nullables/FIRST/FOLLOW, table, recursion check)
+and `LL.Parser.parse` = `LL.run` (`Model/LLParse.lean`, the backtracking stack machine); the
+driver executes exactly these definitions.
 -/
 namespace C01
 open LL Ak
@@ -33,31 +34,44 @@ theorem table_wf {σ : Type} [DecidableEq σ] (G : Prods σ) (terms nulls : List
     l ≠ [] ∧ ∀ r ∈ l, ∃ rules, (X, rules) ∈ G ∧ r ∈ rules :=
   mkTable_inv h (X, t) l (dget_mem hl)
 
+/-- **Factorisation is correct**, for `_factorize_productions` with and without the smart undo:
+whenever it succeeds on a well-formed user dictionary `U` (distinct keys, keys and right-hand
+side symbols are no helper symbols; terminals are no helper symbols), the result `(G, S)` satisfies
+* helper symbols (`S`) occur only in last position of rules,
+* `flatIn`: every expansion of a non-helper symbol obtained by recursively replacing trailing
+  helper symbols by their rules is one of the user's alternatives of that symbol,
+* `flatOut`: every alternative of the user arises this way,
+* the user's symbols are exactly the non-helper keys, helper symbols are fresh keys,
+* the keys of `G` are distinct. -/
+theorem factorize_ok (terms : List Sym) (U G : Prods Sym) (S : List Sym) (smart : Bool)
+    (hU : UserWF U) (hterm : ∀ t ∈ terms, t.path = []) (h : factorize terms U smart = .ok (G, S)) :
+    FactRelD U G S ∧ (G.map (·.1)).Nodup :=
+  factRelD_factorize hU hterm h
+
 /-- **The property, composed** for the parser the constructor builds (both `smart_factorization`
-values, any synonyms / keywords / skip set), for every token list and fuel: a returned tree is
-rooted at the start symbol, is a derivation tree of the *user's* productions whose leaves are
-terminals, contains no helper (suffix) symbol, and its leaves are exactly the non-skipped tokens
-(names after synonyms/keywords, values), `$END$` removed.
+values, any synonyms / keywords / skip set), for every token list and every fuel: a returned tree
+is rooted at the start symbol, is a derivation tree of the *user's* productions whose leaves are
+terminals (a childless node = an empty production), contains no helper (suffix) symbol, and its
+leaves are exactly the non-skipped tokens (names after synonyms/keywords, values), `$END$` removed.
 
 Hypotheses besides `construct inp = .ok P`:
-* `hsu`  — the start symbol is one of the user's symbols (the constructor only checks that it is
-           a key of the *factorised* dictionary);
-* `hEnd` — no lexeme is named `$END$` (synonyms/keywords do not map to the reserved name);
-* `hR : FactRel P` — what factorisation must guarantee (suffix symbols only in last position;
-  every flattened expansion of a user symbol is one of the user's alternatives; user symbols
-  stay keys; suffix symbols are fresh keys).  **This is the part that is not yet derived from the
-  model of `_factorize_productions`** (hence `_partial`); full statement: the same theorem
-  without `hR`, with `hR` replaced by "no right-hand side names a `__S` symbol".  Until then the
-  factorisation step is covered by the correspondence (prods_map, suffix set and every tree
-  compared with the real code) and the oracle. -/
-theorem parse_valid_partial (inp : CtorIn) (P : Parser) (hP : construct inp = .ok P)
-    (hR : FactRel P) (hsu : P.start ∈ pkeys P.userProds)
+* `hrhs`   — no right-hand side names a `__` symbol.  The constructor asserts this only for the keys
+             of `productions` and for terminals; see the example at the end of this file for what
+             the real parser does otherwise.
+* `hstart` — the start symbol is a key of `productions` (the constructor only checks that it is a key
+             of the factorised dictionary, which also contains the helper symbols).
+* `hEnd`   — no lexeme is named `$END$` (synonyms/keywords do not map to the reserved name). -/
+theorem parse_valid (inp : CtorIn) (P : Parser) (hP : construct inp = .ok P)
+    (hrhs : NoDunderRhs inp.prods) (hstart : inp.start ∈ inp.prods.map (·.1))
     (raw : List (List Char × List Char))
     (hEnd : ∀ tok ∈ (P.tokens raw).dropLast, tok.name ≠ endSym)
     (fuel : Nat) (t : Tree Sym) (h : P.parse raw fuel = .ok t) :
     t.name = P.start ∧ Derives P.terminals P.userProds t ∧ NoHelper P.suffix t ∧
-      t.yield = (P.tokens raw).dropLast :=
-  parse_sound_of_rel (construct_built hP) hR hsu raw hEnd fuel t h
+      t.yield = (P.tokens raw).dropLast := by
+  have hB := construct_built hP
+  have h1 := verifyPart1_ok hB.hV
+  obtain ⟨hD, _⟩ := factRelD_of_built hB hrhs
+  exact parse_sound_of_rel hB (factRel_of_D h1 hD) (start_user_of_built hB hrhs hstart) raw hEnd fuel t h
 
 /-! Non-vacuity: the nested-common-prefix grammar `A → x y z | x y | x` (start `A`), both
 `smart_factorization` values, input `x y`: the constructor succeeds and `parse` returns a tree
@@ -71,19 +85,34 @@ def exInp (smart : Bool) : CtorIn :=
 def exRaw : List (List Char × List Char) :=
   [("x".toList, "x".toList), ("SPACE".toList, " ".toList), ("y".toList, "y".toList)]
 
-def parsesTo (smart : Bool) (names : List (List Char)) : Bool :=
-  match construct (exInp smart) with
+def parsesTo (inp : CtorIn) (raw : List (List Char × List Char)) (names : List (List Char)) : Bool :=
+  match construct inp with
   | .ok P =>
-    match P.parse exRaw 1000 with
+    match P.parse raw 1000 with
     | .ok t => decide (t.name = P.start) && decide (t.children.map Tree.name = names.map parseSym)
                 && decide (t.yield.map (·.name) = names.map parseSym)
     | .error _ => false
   | .error _ => false
 
-example : parsesTo true ["x".toList, "y".toList] = true := by decide +kernel
-example : parsesTo false ["x".toList, "y".toList] = true := by decide +kernel
+example : parsesTo (exInp true) exRaw ["x".toList, "y".toList] = true := by decide +kernel
+example : parsesTo (exInp false) exRaw ["x".toList, "y".toList] = true := by decide +kernel
 example : (match construct (exInp false) with
     | .ok P => decide (P.suffix.length = 2)
     | .error _ => false) = true := by decide +kernel
+example : NoDunderRhs (exInp true).prods := by
+  unfold NoDunderRhs; decide
+example : (exInp true).start ∈ (exInp true).prods.map (·.1) := by decide
+
+/-! The hypothesis `hrhs` cannot be dropped — and the real parser behaves like the model here: for
+`E → A b | A c | E__S00 ; A → a` the constructor accepts (the name `E__S00` *is* a key after
+factorisation), and `parse("b")` returns the node `E → b`, which is none of the user's productions. -/
+def badInp : CtorIn :=
+  { groups := ["SPACE".toList, "a".toList, "b".toList, "c".toList], syn := [], kw := [], skip := none,
+    start := "E".toList,
+    prods := [("E".toList, [["A".toList, "b".toList], ["A".toList, "c".toList], ["E__S00".toList]]),
+              ("A".toList, [["a".toList]])],
+    smart := true }
+
+example : parsesTo badInp [("b".toList, "b".toList)] ["b".toList] = true := by decide +kernel
 
 end C01
